@@ -68,6 +68,7 @@ func init() {
 	registerFamily("C02", C02)
 	registerFamily("C03", C03)
 	registerFamily("C06", C06)
+	registerFamily("C08", C08)
 }
 
 var _ = engine.VerifDir
